@@ -123,11 +123,11 @@ func execPlan(p *sim.Plan) (*sim.RunResult, []string, string) {
 	return res, sim.Trace(res), eng.Log()
 }
 
-func minimise(p *sim.Plan, rule string) (*sim.Plan, int) {
+func minimise(p *sim.Plan, rule string, keep func(*sim.Plan, *sim.RunResult) bool) (*sim.Plan, int) {
 	if len(p.Tasks) > 0 {
-		return sim.MinimiseConc(p, rule, 300)
+		return sim.MinimiseConc(p, rule, 300, keep)
 	}
-	return sim.Minimise(p, rule, 400)
+	return sim.Minimise(p, rule, 400, keep)
 }
 
 func doOne() int {
@@ -165,7 +165,7 @@ func doWitness() int {
 		if len(res.Fails) == 0 {
 			continue
 		}
-		minp, _ := sim.Minimise(plan, res.Fails[0].Rule, 400)
+		minp, _ := sim.Minimise(plan, res.Fails[0].Rule, 400, nil)
 		mres, _ := sim.ExecPlan(minp)
 		if len(mres.Fails) == 0 {
 			continue
@@ -352,7 +352,9 @@ func doWorker() int {
 		}
 		if len(res.Fails) > 0 {
 			rule := res.Fails[0].Rule
-			minp, runs := minimise(plan, rule)
+			// the shrunk plan must stay on the same side of the known-findings list
+			kn0 := kf.classify(plan, res)
+			minp, runs := minimise(plan, rule, func(c *sim.Plan, r *sim.RunResult) bool { return kf.classify(c, r) == kn0 })
 			s.MinimiseRun += runs
 			mres, mtrace, _ := execPlan(minp)
 			if len(mres.Fails) == 0 {
